@@ -44,7 +44,21 @@ TRUSTED_BASE = [
     "FRAGMENTS of policy.evaluate / policyset.decide (C02) also the fragment designation in pytolean.py (which statement range, which "
     "variables are inputs/outputs) — the same designation builds the Python function the translation is compared with — and, by hand, "
     "what surrounds the fragments: variable initialisation, rule applicability (eval_condition; match_actions and match_resource are "
-    "translated and proved equal to the model: C03_translated, C05_translated), exceptions",
+    "translated and proved equal to the model: C03_translated, C05_translated), exceptions; "
+    "for the reference evaluators translated WHOLE (C02: policy.evaluate, policyset._decide_single / decide; harness/pytolean_except.py, plugin "
+    "extractors/src_translation_evaluators.py, obligation Run/C02_whole.lean, validated against the real functions on every run by "
+    "Run/SrcEvalEvaluators.lean) nothing of the two functions is hand-modelled any more; the trusted readings are: a top-level `for` with "
+    "break/continue is PyE.forLoop on the tuple of the variables the body assigns that are defined before the loop (the other variables of "
+    "the body are local to one iteration), `try: if T: <constants, continue> except C: …` protects the test T only (PyE.tryBind), x.lower() "
+    "raises AttributeError on a non-str and lowers ASCII letters (the model's lowerField), dict(x) copies a dict, x['k'] = v on a local "
+    "built by dict(…) is rebinding, keyword-only parameters are ordinary ones, the mutual recursion _decide_single ↔ decide is structural "
+    "recursion on a budget that the obligation proves sufficient (the size of the document); CALLED, not re-translated: match_actions, "
+    "_is_applicable, match_resource, _is_strict as the total translations of C03/C05 (so for a truthy non-dict env['resource'] CPython's "
+    "AttributeError is not represented) and eval_condition as translated for C04, whose EXTERNALS stay parameters of the evaluators: _parse_dt "
+    "(datetime parsing: the oracle's), getattr on a non-dict (answers 'absent'), the `rel` branch (the model's evalRel); .raised "
+    "'ConditionTypeError' is not a value (ConditionTypeError is .typeMismatch): PyE.catches does not treat it as one; the theorems speak "
+    "about documents whose policies, sets and rules are dicts and a dict env — on other shapes CPython raises AttributeError where the "
+    "model's get answers None (model's domain, DESIGN §2.1; the translation itself raises like CPython and is compared with it every run)",
     "for the translated role resolver StaticRoleResolver.__init__ / .expand (C18): harness/pytolean_loops.py (on top of pytolean.py) and the "
     "new operations of Model/PyLib.lean, validated against CPython on every run (Run/SrcEvalRoles.lean); the trusted readings are: "
     "`while c: body` is Py.whileFuel — the body iterated on the tuple of the variables it assigns or mutates while c holds, at most `fuel` "
@@ -288,8 +302,20 @@ def build_and_audit(tier: str = "quick") -> dict:
         return res
 
 
-def run_obligation(name: str) -> tuple[bool, str]:
-    """Compile one per-run obligation file lean/Rbacx/Run/<name>.lean on its own."""
+def run_obligation(name: str, deps: tuple[str, ...] | list[str] = ()) -> tuple[bool, str]:
+    """Compile one per-run obligation file lean/Rbacx/Run/<name>.lean on its own.
+
+    `deps`: other obligation files whose theorems this one uses (it `import`s them as modules `Rbacx.Run.<dep>`): they are built
+    first (`lake build`, serialised with the build lock; cached by Lake while Generated.lean does not change).  A prerequisite that
+    does not check makes this obligation undischarged, naming the prerequisite."""
+    if deps:
+        with open(os.path.join(LEAN, ".lake", "verif.lock"), "w") as lock:
+            fcntl.flock(lock, fcntl.LOCK_EX)
+            b = sh(["lake", "build"] + [f"Rbacx.Run.{d}" for d in deps], cwd=LEAN, timeout=1800)
+        if b.returncode != 0:
+            out = b.stdout + b.stderr
+            first = out.find("error")
+            return False, (f"prerequisite obligation(s) {list(deps)} of {name} do not check: " + (out[max(first - 200, 0):][:1800] if first >= 0 else out[-1800:]))
     p = sh(["lake", "env", "lean", f"Rbacx/Run/{name}.lean"], cwd=LEAN, timeout=900)
     out = p.stdout + p.stderr
     if p.returncode != 0:
